@@ -511,7 +511,9 @@ fn spawn<I: CoItem, M: Finish<I>>(stage: u8, item: I) -> SimWork<I, M> {
             if w.ch.draw("work.bulk.pend", 2) == 1 {
                 script.push(Step::Pend(crate::world::Wake::Later(w.ch.draw("work.bulk.delay", 3))));
             }
-            let err = M::FALLIBLE && w.ch.draw("work.bulk.err", w.model.co.bulk) == 0;
+            // about four failures per bulk run: a swallowed error shows at once as "source item taken / work completed
+            // after an error", whatever the final result
+            let err = M::FALLIBLE && w.ch.draw("work.bulk.err", w.model.co.bulk) < 4;
             script.push(Step::Ready { err });
             crate::gen::LeafPlan { script, term: Term::Finished }
         } else {
